@@ -17,7 +17,9 @@ RULE = ('family = one generated pipeline with a prefetch / parallel-map stage an
         'Non-trivial = a fault fired or a real context switch happened; distinct = '
         'distinct (pipeline, fault plan, schedule signature). Every 50th family is '
         'systematic: a tiny workload with one failing position under the non-preemptive '
-        'baseline schedule and ALL schedules with exactly one forced context switch.')
+        'baseline schedule and ALL schedules with exactly one forced context switch; in the '
+        'thorough tier every 3000th family enumerates all schedules with at most TWO '
+        'forced switches of a n=2 thread-backend workload.')
 PROBES = ['all_single_preemption_schedules_of_a_tiny_workload', 'error_after_deliveries', 'error_at_first_position', 'error_at_last_position',
           'caught_and_omitted', 'foreign_exception_with_catch_enabled']
 BUDGET = {
@@ -28,9 +30,13 @@ BUDGET = {
 KINDS = ['value', 'filter', 'filter_sub', 'key', 'index', 'timeout', 'notimpl', 'stopiter', 'base']
 
 
-def gen_systematic(rng):
-    """tiny workload, one failing position, ALL one-preemption schedules"""
+def gen_systematic(rng, two=False):
+    """tiny workload, one failing position, ALL one-preemption schedules
+    (two=True, thorough tier: at most two forced switches, n=2)"""
     desc = parprops.tiny_desc(rng)
+    if two:
+        while desc['source']['n'] != 2 or parprops.par_stage(desc).get('backend') != 't':
+            desc = parprops.tiny_desc(rng)
     n = desc['source']['n']
     pi = pargen.par_index(desc)
     sites = [s['id'] for s in desc['stages'][:pi + 1] if 'id' in s]
@@ -38,10 +44,15 @@ def gen_systematic(rng):
             'trace': ['parallel_utils'], 'systematic': 1,
             'faults': [{'stage': rng.choice(sites), 'pos': rng.randrange(n),
                         'exc': rng.choice(KINDS)}]}
+    if two:
+        base['systematic'] = 2
+        return parprops.two_preemption_cases(base, parrun.run_par_case)
     return parprops.one_preemption_cases(base, parrun.run_par_case)
 
 
 def gen(rng, tier, index):
+    if tier == 'thorough' and index % 3000 == 2999:
+        return gen_systematic(rng, two=True)
     if index % 50 == 49:
         return gen_systematic(rng)
     # backend=False (undocumented serial debugging mode) has no background
@@ -124,6 +135,8 @@ def _check_nothing_swallowed(case, res, out):
 def run(case):
     res = parrun.run_par_case(case)
     out = parprops.base_outcome(case, res)
+    if case.get('systematic') == 2:
+        out['fired']['systematic_two_preemptions'] = 1
     if case.get('systematic'):
         out['fired']['systematic_one_preemption'] = 1
         out['probes']['all_single_preemption_schedules_of_a_tiny_workload'] = 1
